@@ -1586,6 +1586,13 @@ func (s *Store) processLTXStreamFrame(ctx context.Context, frame *LTXStreamFrame
 		return fmt.Errorf("fsync ltx file: %w", err)
 	}
 
+	// Validate the file before it becomes part of the log or touches the database.
+	if _, err := f.Seek(0, io.SeekStart); err != nil {
+		return fmt.Errorf("seek: %w", err)
+	} else if err := ltx.NewDecoder(f).Verify(); err != nil {
+		return fmt.Errorf("validate ltx: %w", err)
+	}
+
 	// Atomically rename file.
 	if err := s.OS.Rename("PROCESSLTX", tmpPath, path); err != nil {
 		return fmt.Errorf("rename ltx file: %w", err)
